@@ -8,7 +8,7 @@ tree is then compared with the structure and with the expander's own tree.
 import random
 import re
 
-from vlib.chglue import PART_K, PART_N, TIER, THOROUGH, SEED, in_part, reset_defaults, concrete
+from vlib.chglue import PART_K, PART_N, TIER, THOROUGH, SEED, in_part, reset_defaults, concrete, forked as _forked
 from harness.c02 import bsearch
 from harness import tables as T
 from hl7apy.parser import parse_message
@@ -352,6 +352,75 @@ def _ob_refs(i: int) -> bool:
         return table_ok(i)
 
 
+# ---- H: deterministic = independent of what the process parsed before -------------------------------------------------------
+# The same structure / group NAME is defined differently by different versions.  For every ordered pair of versions whose
+# definitions of one message structure differ in the segment set of some same-named group, the instance of the second version is
+# parsed after the first one's in one (forked) process and must give the tree it gives in a process that parsed nothing else.
+def _group_sets(ref, acc=None):
+    acc = {} if acc is None else acc
+    for (name, cref, card, kind) in ref[1]:
+        if kind != 'SEG' and cref is not None:
+            acc[name] = frozenset(seg_names(cref))
+            _group_sets(cref, acc)
+    return acc
+
+
+def _usable(v, m):
+    return m == m.upper() and all(n in T.SEGS[v] and T.seg_children(v, n) is not None for n in seg_names(T.LIBS[v].MESSAGES[m]))
+
+
+def _hist_pairs():
+    out = []
+    names = sorted(set(m for v in T.VERSIONS for m in T.MSGS[v]))
+    for m in names:
+        vs = [v for v in T.VERSIONS if m in T.LIBS[v].MESSAGES and _usable(v, m)]
+        sets = {v: _group_sets(T.LIBS[v].MESSAGES[m]) for v in vs}
+        for a in vs:
+            for b in vs:
+                if a != b and any(g in sets[a] and sets[a][g] != sets[b][g] for g in sets[b]):
+                    out.append((m, a, b))
+    return out
+
+
+HPAIRS = _hist_pairs()
+NH = len(HPAIRS)
+HCHOICES = [((1 << NBITS) - 1) * 9, 0]          # all optional children once / required only
+
+
+def _instance_tree(v, mname, choice):
+    ref = ref_of(v, mname)
+    nodes = expand(ref, _State(choice // 9, ((choice % 9) % 3, (choice % 9) // 3)))
+    names = flatten(nodes)
+    mtype = mname.split('_')
+    msh = 'MSH|^~\\&|A|B|||2020||%s^%s^%s|1|P|%s' % (mtype[0], mtype[1] if len(mtype) > 1 else '', mname, v)
+    text = '\r'.join([msh] + [line(n, k + 1) for k, n in enumerate(names)])
+    try:
+        return real_tree(parse_message(text, validation_level=2, find_groups=True))
+    except Exception as e:      # compared as a value: the same refusal in both processes is not this obligation's subject
+        return 'raised %s: %s' % (type(e).__name__, e)
+
+
+def hist_check(i, c, trace=None):
+    m, va, vb = HPAIRS[i]
+    choice = HCHOICES[c]
+    alone = _forked(lambda: _instance_tree(vb, m, choice))
+    after = _forked(lambda: (_instance_tree(va, m, choice), _instance_tree(vb, m, choice))[1])
+    if trace is not None:
+        trace.append('%s: version %s parsed after version %s in one process\n  tree after   %r\n  tree alone   %r' % (m, vb, va, after, alone))
+    return after == alone
+
+
+def _ob_hist(i: int, c: int) -> bool:
+    """
+    pre: 0 <= i < NH and 0 <= c < 2
+    pre: in_part(i)
+    post: _
+    """
+    i, c = bsearch(i, NH), bsearch(c, 2)
+    with concrete():
+        return hist_check(i, c)
+
+
 def explain(call):
     m = re.match(r'(\w+)\((.*)\)$', call, re.S)
     a, kw = eval('(lambda *a, **k: (a, k))(%s)' % m.group(2))
@@ -359,6 +428,10 @@ def explain(call):
     try:
         if m.group(1) == '_ob_refs':
             table_ok(a[0] if a else kw['i'], tr)
+            return '\n'.join(tr)
+        if m.group(1) == '_ob_hist':
+            v = dict(zip(['i', 'c'], a)); v.update(kw)
+            hist_check(v['i'], v['c'], tr)
             return '\n'.join(tr)
         if m.group(1) == '_ob_zseg':
             v = dict(zip(['si', 'base', 'pos'], a)); v.update(kw)
@@ -390,6 +463,10 @@ SPEC = {
         {'name': 'T.refs', 'fn': '_ob_refs', 'parts': 8, 'cond_timeout': 900, 'path_timeout': 60,
          'bound': 'ALL %d MESSAGES / GROUPS tables of the 12 versions: every segment row references SEGMENTS[name], every group row '
                   'GROUPS[name] (group-finding reads a None reference as "not found"), cardinalities well formed' % NTAB},
+        {'name': 'H.hist', 'fn': '_ob_hist', 'parts': 16, 'cond_timeout': 900, 'path_timeout': 60,
+         'bound': 'ALL %d ordered pairs of versions whose definitions of one message structure '
+                  'differ in the segment set of a same-named group x 2 instances: the second version parsed after the first in one '
+                  'forked process gives the tree it gives in a fresh forked process' % NH},
         {'name': 'zseg', 'fn': '_ob_zseg', 'parts': 16, 'cond_timeout': {'quick': 900, 'thorough': 3000}, 'path_timeout': 60,
          'bound': '%d structures x 3 instances x a Z segment inserted after each of the first %d segments: flattening gives the input '
                   'sequence, find_groups=False encodes identically' % (NS, ZMAXPOS)},
